@@ -163,7 +163,9 @@ type Op struct {
 }
 
 var namePool = []string{"a", "b", "x", "", "foo", "toString", "ünï", "a b", "\"q\""}
-var strPieces = []string{"a", "ab", " ", "\n", "\r", "\r\n", "é", "日本", "x\ny", "\n\n", "\r\r", "a\r\nb", "\t", ";", "\r\n\r\n", "z\r"}
+var strPieces = []string{"a", "ab", " ", "\n", "\r", "\r\n", "é", "日本", "x\ny", "\n\n", "\r\r", "a\r\nb", "\t", ";", "\r\n\r\n", "z\r",
+	// characters other tools treat as line terminators or that merely look like them: to the mapper they are columns
+	"\u2028", "a\u2029b", "\u0085", "\v", "\f", "\x00", "\xe2\x80", "\u2028\n"}
 
 type Engine struct{}
 
